@@ -187,3 +187,42 @@ Proof. intros H1 H2. unfold resolve. now rewrite H1, H2. Qed.
 Theorem nnx_reseed_restarts nm seed ss k c out sq : sassoc nm ss = Some (Plain k c) ->
   rstep (mkR ss out sq) (RReseed nm seed) = Some (mkR (sset nm (Plain (KSeed seed) 0) ss) out sq).
 Proof. intros H. unfold rstep. simpl. now rewrite H. Qed.
+
+(* ---------------- LazyRng and the jit boundary ---------------- *)
+Lemma make_rng_key_unfold sep r c : make_rng_key sep r c = LFold (lr_key r) (enc sep (lr_suffix r ++ [FInt c])).
+Proof.
+  unfold make_rng_key, as_jax_rng, lazy_create. cbn [lr_suffix lr_key]. destruct (lr_suffix r ++ [FInt c]) eqn:E; [|reflexivity].
+  destruct (lr_suffix r); discriminate.
+Qed.
+
+(* scopes whose paths are hashed differently draw different keys inside lift.jit / fold_rngs, whatever their counts *)
+Theorem jit_keeps_paths_apart sep root p q c d : p <> [] -> q <> [] -> enc sep p <> enc sep q ->
+  make_rng_key sep (materialise sep (mkLazy root p)) c <> make_rng_key sep (materialise sep (mkLazy root q)) d.
+Proof.
+  intros Hp Hq Hne. rewrite !make_rng_key_unfold. unfold materialise, as_jax_rng. cbn [lr_key lr_suffix app].
+  destruct p as [|a p]; [contradiction|]. destruct q as [|b q]; [contradiction|]. intros E. injection E as E1 E2. contradiction.
+Qed.
+
+(* ... and none of them is a key the root scope draws itself *)
+Theorem jit_keys_not_root_keys sep root p c d : p <> [] ->
+  make_rng_key sep (materialise sep (mkLazy (LRoot root) p)) c <> make_rng_key sep (mkLazy (LRoot root) []) d.
+Proof.
+  intros Hp. rewrite !make_rng_key_unfold. unfold materialise, as_jax_rng. cbn [lr_key lr_suffix app].
+  destruct p as [|a p]; [contradiction|]. intros E. injection E as E1 E2. discriminate.
+Qed.
+
+(* the keys of the transformed module itself (nn.jit forks them first: empty suffix) are what they were *)
+Theorem materialise_forked sep k : materialise sep (mkLazy k []) = mkLazy k [].
+Proof. reflexivity. Qed.
+
+(* within one scope different counts still give different keys *)
+Theorem jit_counts_apart sep r c d : enc sep [FInt c] <> enc sep [FInt d] ->
+  make_rng_key sep (materialise sep r) c <> make_rng_key sep (materialise sep r) d.
+Proof. intros Hne. rewrite !make_rng_key_unfold. unfold materialise. cbn [lr_key lr_suffix app]. intros E. injection E as E. contradiction. Qed.
+
+(* the defect repaired by the `fix:` commit (F31): with the suffix dropped, every scope handed to lift.jit draws the keys of
+   the root scope *)
+Theorem clear_suffix_collides sep root p q c :
+  make_rng_key sep (clear_suffix (mkLazy root p)) c = make_rng_key sep (clear_suffix (mkLazy root q)) c /\
+  make_rng_key sep (clear_suffix (mkLazy root p)) c = make_rng_key sep (mkLazy root []) c.
+Proof. split; reflexivity. Qed.
